@@ -210,9 +210,14 @@ func (r *propRun) exec() int {
 			continue
 		}
 		seenFunc[u.Func] = true
-		opt := govc.Options{Property: def.ID, Canary: true}
+		opt := govc.Options{Property: def.ID, Canary: true, ServiceLoops: map[string]bool{}}
+		for _, l := range def.ServiceLoops {
+			opt.ServiceLoops[l] = true
+		}
 		if u.Sweep {
 			opt.Sweep, opt.NoPanic, opt.Variants = true, true, true
+		} else {
+			opt.AutoInv = true
 		}
 		fo := runner.VerifyFunction(prog, fi, opt)
 		r.outcomes = append(r.outcomes, fo)
@@ -273,9 +278,7 @@ func (r *propRun) exec() int {
 					newBL.Undecided = append(newBL.Undecided, o.ID)
 					break
 				}
-				if roots[u.Func] || len(def.Roots) == 0 {
-					rp = r.tryReplay(u, fo, res)
-				}
+				rp = r.tryReplay(u, fo, res)
 				switch {
 				case rp != nil && rp.Reproduced:
 					rec.Class = "violation"
